@@ -153,6 +153,11 @@ type caseResult struct {
 	nilEndMiss int  // probe: nil-end scans whose pre-execution answer lacked a live key
 	scanItems  int
 	fromBk     int // answers served from the backing state (Get of unwritten key, scan items read)
+	// executions over a moving backing (moving.go)
+	extra    map[string]int // counters of the moving part
+	taint    string         // probe: the execution contains a move the unchanged code is known not to handle
+	lines    []string       // program with the backing moves interleaved
+	ansLines []string
 }
 
 func obsEqual(a, b *Obs) (bool, string) {
@@ -224,7 +229,13 @@ func runCase(reader ledger.XMReader, bk *backingDesc, prog []Op, softNilEnd bool
 	res.lookahead, res.unrelated = m.classifyExtras(rw)
 	res.rsetSize, res.wsetSize = len(rw.RSet), len(rw.WSet)
 
-	// ---- replay over the read set alone (what verification does) ----
+	replayCheck(res, full, rw, u, m.emptyKey, bk.Real)
+	return res
+}
+
+// replayCheck re-runs the same calls over the read set alone (what verification does) and compares
+// every result, the write set, the token side and the versions the replay read.
+func replayCheck(res *caseResult, full []Op, rw *contract.RWSet, u *contract.UTXORWSet, emptyKey map[string]bool, real bool) *caseResult {
 	ex2 := newExecutor(sandbox.XMReaderFromRWSet(rw), sandbox.NewUTXOReaderFromInput(u.Rset))
 	rsetKind := map[bkey]bkKind{}
 	for _, vd := range rw.RSet {
@@ -264,10 +275,10 @@ func runCase(reader ledger.XMReader, bk *backingDesc, prog []Op, softNilEnd bool
 				case extraInReplay && inR && kind == bkNever:
 					sig = "sandbox|scan-yields-absent-key-that-was-looked-up"
 					detail += fmt.Sprintf(": in the replay the scan yields key %q, which is in the read set only as a never-written key (looked up and found absent)", dk)
-				case m.emptyKey[b]:
+				case emptyKey[b]:
 					sig = emptyKeySig
 					detail += " [the execution used the empty key, passed as a nil slice, in this bucket]"
-				case bk.Real && scanHiNil(full, i, op) && inR && kind == bkLive:
+				case real && scanHiNil(full, i, op) && inR && kind == bkLive:
 					sig = "sandbox|select-nil-end|backing-vs-replay-disagree"
 					detail += fmt.Sprintf(": key %q is live in the backing state; xmodel.Select(bucket, start, nil) lists nothing, the replay reader lists up to the end of the bucket", dk)
 				}
